@@ -461,8 +461,8 @@ where
                     cfg.cases = per as u32;
                     cfg.failure_persistence = None;
                     cfg.rng_seed = RngSeed::Fixed(mix(seed, name, shard as u64));
-                    cfg.max_shrink_iters = 20_000;
-                    cfg.max_shrink_time = 0;
+                    cfg.max_shrink_iters = 2_000_000;
+                    cfg.max_shrink_time = 45_000; // ms: shrinking is bounded by time (cases cost microseconds to 100 ms), not by a small iteration count
                     cfg.max_global_rejects = 1 << 20;
                     cfg.max_local_rejects = 1 << 20;
                     cfg.verbose = 0;
